@@ -284,11 +284,24 @@ def main(argv):
                                                                                                          got.get(("self", 0)) or 0, got.get(("self", 1)) or 0),
                                  dict(kind=kind, axi=axi, drive1=pair_runs[0].files() if pair_runs else None, drive2=pair_runs[1].files() if len(pair_runs) > 1 else None))
         # ---- a time-harmonic solve at vanishing frequency equals the static one
-        for t, axi in enumerate([False, True]):
+        vf = [(False, None), (True, None), (False, "lam"), (True, "lam"), (False, "lam0"), (True, "lam0")]
+        if ck.tier == "thorough":
+            vf = vf * 3
+        for t, (axi, lam) in enumerate(vf):
             p0 = base_problem("m", rng, axi, harmonic=True)
             e1 = excite(p0, "m", rng, 1)
             e1["Hc"] = {i: 0.0 for i in e1["Hc"]}      # permanent magnets are a DC-only excitation (ignored by the AC solver)
+            if lam and not any(e1["J"].values()) and not any(e1["I"].values()) and not any(e1["A"]) and not e1["pt"]:
+                e1["J"] = {i: 1.0 for i in e1["J"]}
             ps = apply(p0, "m", e1)
+            if lam:
+                # laminations in the plane (type 0): iron of fill t in parallel with air, mu_eff = t mu + (1 - t), in the static solvers, the
+                # harmonic solvers and the post-processor alike; "lam0" = a fill factor on a material without a lamination thickness
+                for m in ps.blockprops:
+                    m["LamType"] = 0
+                    m["LamFill"] = rng.choice([0.5, 0.9])
+                    m["d_lam"] = 0.0 if lam == "lam0" else rng.choice([0.35, 0.5])
+                    m["Mu_x"] = rng.choice([1.0, 50.0, 1000.0]); m["Mu_y"] = m["Mu_x"]
             # regions that belong to a circuit are made non-conducting for this pair: with a massive conductor in a series circuit the
             # harmonic formulation carries a voltage unknown whose equation degenerates as omega -> 0, and the complex solver then
             # returns with true residuals of 1e-2 (observed at 1e-16 Hz; recorded under "observed, not claimed" in DESIGN.md)
@@ -316,12 +329,21 @@ def main(argv):
             xs = nodal(femmio.read_solution(rs.solution_path(), "m"), "m", False)
             xh = nodal(femmio.read_solution(rh.solution_path(), "m"), "m", True)
             stats["vanishing_frequency_pairs"] += 1
-            ck.case(("vanishing-frequency", axi), nontrivial=True)
+            stats["vanishing_frequency_" + (lam or "solid")] = stats.get("vanishing_frequency_" + (lam or "solid"), 0) + 1
+            ck.case(("vanishing-frequency", axi, lam, t), nontrivial=True)
             sc = max(max(abs(v) for v in xs), 1e-300)
             err = max(abs(h - s) for h, s in zip(xh, xs)) / sc
             if err > 1e-5:
-                ck.violation("vanishing-frequency:%s" % ("axi" if axi else "planar"), "harmonic solution at %.3g Hz deviates from the static one by %.3g (relative)" % (ph.freq, err),
-                             dict(files=rh.files()))
+                if lam == "lam0":
+                    key = "vanishing-frequency:lamfill-zero-thickness"
+                elif lam:
+                    key = "vanishing-frequency:laminated:%s" % ("axi" if axi else "planar")
+                else:
+                    key = "vanishing-frequency:%s" % ("axi" if axi else "planar")
+                ck.violation(key, "%s%s: harmonic solution at %.3g Hz deviates from the static one by %.3g (relative); materials (mu, fill, d_lam): %s"
+                             % ("axisymmetric" if axi else "planar", " laminated" if lam else "", ph.freq, err,
+                                [(m["Mu_x"], m.get("LamFill", 1.0), m.get("d_lam", 0.0)) for m in ps.blockprops]),
+                             dict(static=rs.files(), harmonic=rh.files()))
     finally:
         shutil.rmtree(work, ignore_errors=True)
     ck.notes["input_distribution"] = stats
